@@ -20,21 +20,27 @@ SHAPES_B = ("point", "seg", "sq", "tet", "tet2")
 
 
 def model_check(res):
-    """safety that holds on every path of the GJK+EPA model (any closest-face tie-breaking): faces stay on the hull, a
-    converged run reports a supporting plane.  Two further configurations are informative: first-index tie-breaking and a
-    'corrected' vertex swap both let the polytope overflow on some scene - the design does not guarantee termination."""
+    """TLC on the GJK+EPA model.  Since the repair 18911a2 (the start tetrahedron is oriented before its faces are built) the
+    design terminates with the exact penetration depth for EVERY closest-face tie-breaking (GjkEpa_any.cfg), for first-index
+    ties (GjkEpa.cfg) and also with a real vertex swap in fix_ccw_normal_direction (GjkEpa_correctswap.cfg).  The design as found
+    (GjkEpa_noorient.cfg: faces from the simplex rows as GJK left them) must violate EpaTerminates - the vacuity guard, and the
+    design-level form of the defect."""
     jobs = [dict(spec_dir="c18", module="GjkEpaMC", cfg="GjkEpa_any.cfg", workers=6, heap="3g", tag="gjkepa_any"),
             dict(spec_dir="c18", module="GjkEpaMC", cfg="GjkEpa.cfg", workers=3, heap="2g", tag="gjkepa_first"),
-            dict(spec_dir="c18", module="GjkEpaMC", cfg="GjkEpa_correctswap.cfg", workers=3, heap="2g", tag="gjkepa_swap")]
-    r, first, swap = tlc.run_many(jobs)
-    res.add_tlc(r)
-    if r.invariant_violated:
-        res.violation("mc:GjkEpa", "ModelInvariant", f"TLC: {r.invariant_violated} violated on the GJK+EPA model", {"tlc_tail": r.out[-3000:]})
-    elif not r.ok:
-        res.machinery("TLC GjkEpa failed:\n" + r.out[-2000:])
-    res.add_tlc(first); res.add_tlc(swap)
-    res.coverage["epa_model_first_tie_breaking"] = "violates " + ",".join(first.invariant_violated) if first.invariant_violated else ("holds" if first.ok else "error")
+            dict(spec_dir="c18", module="GjkEpaMC", cfg="GjkEpa_correctswap.cfg", workers=3, heap="2g", tag="gjkepa_swap"),
+            dict(spec_dir="c18", module="GjkEpaMC", cfg="GjkEpa_noorient.cfg", workers=3, heap="2g", tag="gjkepa_noorient")]
+    r, first, swap, noor = tlc.run_many(jobs)
+    for name, x in (("GjkEpa_any", r), ("GjkEpa", first)):
+        res.add_tlc(x)
+        if x.invariant_violated:
+            res.violation(f"mc:{name}", "ModelInvariant", f"TLC: {x.invariant_violated} violated on the GJK+EPA model ({name}.cfg)", {"tlc_tail": x.out[-3000:]})
+        elif not x.ok:
+            res.machinery(f"TLC {name} failed:\n" + x.out[-2000:])
+    res.add_tlc(swap); res.add_tlc(noor)
     res.coverage["epa_model_corrected_swap"] = "violates " + ",".join(swap.invariant_violated) if swap.invariant_violated else ("holds" if swap.ok else "error")
+    res.coverage["epa_model_start_not_oriented"] = "violates " + ",".join(noor.invariant_violated) if noor.invariant_violated else ("holds" if noor.ok else "error")
+    if "EpaTerminates" not in noor.invariant_violated:
+        res.machinery("the GJK+EPA model without the orientation of the start tetrahedron did not violate EpaTerminates (vacuous model)")
 
 
 def prim(d):
